@@ -273,7 +273,7 @@ var plans = map[string]*Plan{
 	"C07": clusterPlan("C07", 12, 1, 16, 9, map[string]int64{"rebuild_cycles": 4, "promotions_checked": 4, "stored_images_compared": 8, "writes_acknowledged": 1000},
 		"clusters of real processes (in-process controller with the real remote factory and REST server; jiva replica + jiva sync-agent processes on their own loopback addresses; RF 2-3, volumes of 4-12 MiB) run kill/stop -> detach -> restart -> rebuild cycles under 1-3 foreground writers at three intensities, with pre-failure histories incl. user snapshots; a third of the rebuilds are interrupted (SIGKILL of the rebuilding replica at the Addreplica / syncFiles / reloadAndVerify log markers, with or without its sync agent) and some lose their source; "+
 			"when the replica is first listed RW the writers are paused and (a) the whole volume is read once per reader position through the controller (so the promoted replica serves every chunk through its live block map), (b) extent-exact copies of the promoted and the source directory yield live image and every user snapshot (revert-on-copy): pairwise byte-identical and equal to the model, revision counters and chains equal; the sampled mode timeline must never show two WO replicas nor a restarted replica listed RW before WO; non-trivial = a cycle with acknowledged foreground writes; distinct = configuration + event count"),
-	"C19": clusterPlan("C19", 5, 1, 15, 4, map[string]int64{"clones_completed": 2, "clone_images_compared": 2, "clone_status_samples": 50, "failed_clones_observed": 1},
+	"C19": clusterPlan("C19", 6, 1, 18, 4, map[string]int64{"clones_completed": 2, "clone_images_compared": 2, "clone_status_samples": 50, "failed_clones_observed": 1},
 		"two real volumes per scenario: a source (RF 1-2) with 2-5 user snapshots and further writes after the cloned snapshot S (S at every chain position across cases), and a new volume whose only replica is started with --type clone; variants (cycled over the cases): none, writes on the source during the copy, SIGKILL of the source replica(s) during the file sync, SIGKILL of the clone during the copy (each followed by a supervisor restart), and a clone of a snapshot that does not exist at the source (must end in an error status and never be served); "+
 			"the clone replica's REST state is sampled every 15 ms (mode RW implies status completed; the new controller holds its lock while polling so the replica side is where intermediate states are visible); at completion the full read through the new controller must equal the model image of S and revert-on-copy of the source directory, the clone's revision counter must equal the one recorded for S, and the clone must accept writes; distinct = configuration + event count"),
 }
@@ -306,7 +306,12 @@ func clusterPlan(id string, qw, qc, tw, tc int, floor map[string]int64, rule str
 			if tier == "thorough" {
 				cyc = "3"
 			}
-			return jobs("cluster", w, c, "bin={BIN},cycles="+cyc, time.Duration(tierN(tier, 20, 150))*time.Minute)
+			js := jobs("cluster", w, c, "bin={BIN},cycles="+cyc, time.Duration(tierN(tier, 20, 150))*time.Minute)
+			if id == "C19" {
+				// the controller's side on the controller engine: scripted clone-status sequences polled during Start
+				js = append(js, jobs("ctlsim", 6, tierN(tier, 2, 16), "", time.Duration(tierN(tier, 20, 60))*time.Minute)...)
+			}
+			return js
 		},
 		CrashSig: func(last, log string) (string, string) {
 			c := jivaCrash(log)
